@@ -18,7 +18,8 @@ well-typed, missing, null or ill-typed parameter / custom error names incl. near
 parameters absent, null, object, other JSON) served by a scripted fake service on a socketpair to call(); oracle: \
 independent reply->outcome mapping from the statement. (b) every history of length <= 4 (quick) / 5 (thorough) \
 and random ones up to 12 over {call, more-start, more-next, oneway, second send on the same object, new call / \
-oneway while iterating, drop iterator} against a model of the connection slot (Idle | Streaming): busy \
+oneway while iterating, drop iterator, a stream whose first reply is an error reply with continues:true, a call after an \
+iterator was dropped mid-stream (must not receive a reply of that stream)} against a model of the connection slot (Idle | Streaming): busy \
 rejections write no byte, a call object sends once, after the final reply the connection works, every result is \
 the reply queued for that call. (c) 2..8 threads share one connection against a live scripted server with \
 generated op lists and yields; every call returns its own token or a busy error, the server log is a sequence of \
@@ -249,6 +250,9 @@ pub enum HOp {
     Call,
     /// new call object, more() with this many continues replies queued, then a final
     MoreStart(u8),
+    /// like MoreStart(2), but the first reply is an *error* reply that carries `continues: true`
+    /// (the crate's own server writes that for set_continues(true) + reply_error): the stream goes on
+    MoreStartErrFirst,
     /// next() on the current iterator
     MoreNext,
     /// new call object, oneway()
@@ -259,11 +263,12 @@ pub enum HOp {
     DropIter,
 }
 
-const HOPS: [HOp; 8] = [
+const HOPS: [HOp; 9] = [
     HOp::Call,
     HOp::MoreStart(0),
     HOp::MoreStart(1),
     HOp::MoreStart(2),
+    HOp::MoreStartErrFirst,
     HOp::MoreNext,
     HOp::Oneway,
     HOp::SendAgain,
@@ -289,7 +294,10 @@ pub fn run_history(h: &[HOp]) -> Result<bool, Fail> {
     enum St {
         Idle,
         Streaming(usize), // replies still queued for the iterator (incl. the final)
+        /// an iterator was dropped with this many of its replies still queued
+        Abandoned,
     }
+    let mut iter_err_first = false;
     let mut st = St::Idle;
     let mut iter: Option<crate::fake::VCall> = None; // current more() call object
     let mut iter_token: u64 = 0;
@@ -301,8 +309,24 @@ pub fn run_history(h: &[HOp]) -> Result<bool, Fail> {
         let tok = 1000 + i as u64;
         let before = fake.drain().len();
         match op {
-            HOp::Call | HOp::Oneway | HOp::MoreStart(_) => {
+            HOp::Call | HOp::Oneway | HOp::MoreStart(_) | HOp::MoreStartErrFirst => {
                 let mut c = vcall(&fake.conn, "org.x.Op", json!({"tok": tok}));
+                if matches!(st, St::Abandoned) {
+                    // what a call does on a connection whose stream was abandoned is not specified,
+                    // except that it must never be handed a reply of that stream
+                    if let HOp::Call = op {
+                        let _ = fake.try_push_replies(&[json!({"parameters": {"tok": tok}})]);
+                        if let Ok(v) = c.call() {
+                            if v["tok"] != tok {
+                                return Err(Fail::new(
+                                    "history/foreign-reply-after-abandoned-stream",
+                                    format!("op #{} call() after an iterator was dropped mid-stream returned {} - a reply of the abandoned stream, not its own (tok {}) (history {:?})", i, v, tok, h),
+                                ));
+                            }
+                        }
+                    }
+                    return Ok(busy_seen);
+                }
                 let streaming = matches!(st, St::Streaming(_));
                 if streaming {
                     // must fail with busy, write nothing
@@ -351,9 +375,13 @@ pub fn run_history(h: &[HOp]) -> Result<bool, Fail> {
                         written += 1;
                         last = Some(c);
                     }
-                    HOp::MoreStart(k) => {
-                        let k = *k as usize;
+                    HOp::MoreStart(_) | HOp::MoreStartErrFirst => {
+                        let k = if let HOp::MoreStart(k) = op { *k as usize } else { 2 };
+                        iter_err_first = matches!(op, HOp::MoreStartErrFirst);
                         let mut rs: Vec<Value> = (0..k).map(|j| json!({"continues": true, "parameters": {"tok": tok, "j": j}})).collect();
+                        if iter_err_first {
+                            rs[0]["error"] = json!("org.x.Oops");
+                        }
                         rs.push(json!({"parameters": {"tok": tok, "j": k}}));
                         fake.push_replies(&rs);
                         if let Err(e) = c.more() {
@@ -375,7 +403,8 @@ pub fn run_history(h: &[HOp]) -> Result<bool, Fail> {
                     St::Streaming(n) => {
                         let j = (iter_left_conts + 1) - n;
                         match item {
-                            Some(Ok(v)) if v["tok"] == iter_token && v["j"] == j as u64 => {}
+                            Some(Ok(v)) if v["tok"] == iter_token && v["j"] == j as u64 && !(iter_err_first && j == 0) => {}
+                            Some(Err(e)) if iter_err_first && j == 0 && matches!(e.kind(), varlink::ErrorKind::VarlinkErrorReply(r) if r.error.as_deref() == Some("org.x.Oops") && r.parameters.as_ref().map(|p| p["tok"] == iter_token).unwrap_or(false)) => {}
                             other => {
                                 return Err(Fail::new(
                                     "history/iterator-item",
@@ -388,6 +417,7 @@ pub fn run_history(h: &[HOp]) -> Result<bool, Fail> {
                             return Err(Fail::new("history/slots-not-returned", format!("op #{}: final reply consumed but the connection is not usable", i)));
                         }
                     }
+                    St::Abandoned => {}
                     St::Idle => {
                         if let Some(x) = item {
                             return Err(Fail::new(
@@ -417,12 +447,16 @@ pub fn run_history(h: &[HOp]) -> Result<bool, Fail> {
             HOp::DropIter => {
                 if iter.take().is_some() {
                     if let St::Streaming(_) = st {
-                        // dropped mid-stream: the statement says nothing about what follows
-                        break;
+                        // dropped mid-stream: the statement says nothing about what follows, except
+                        // that the abandoned stream's replies go to nobody else
+                        st = St::Abandoned;
                     }
                 }
             }
         }
+    }
+    if matches!(st, St::Abandoned) {
+        return Ok(busy_seen);
     }
     let reqs = fake.requests().map_err(|e| Fail::new("history/garbled-request", e))?;
     if reqs.len() != written {
